@@ -361,10 +361,6 @@ fn oracle(c: &Case, script: &[u8], obs: &Obs) -> String {
         return "FAIL:stuck".into();
     }
     let shared = !matches!(c.feed, Feed::Str);
-    // a syntax error ends the shell with status 2
-    if obs.err && obs.status != 2 {
-        return "FAIL:syntax-error-status".into();
-    }
     // (1) the feed does not matter
     let reference = observe(script, &c.data, &Feed::File);
     match c.feed {
@@ -383,6 +379,10 @@ fn oracle(c: &Case, script: &[u8], obs: &Obs) -> String {
             }
         }
         Feed::File => {}
+    }
+    // a reported error (other than a command that was not found) is a syntax error: status 2
+    if obs.err && obs.status != 2 {
+        return "FAIL:error-reported-without-syntax-error-status".into();
     }
     if shared {
         // (2) every offset a command sees is the start of a line
@@ -503,7 +503,13 @@ impl Gen {
     }
     fn word(&mut self) -> String {
         let pool = ["ab", "c", "x1", "foo", "b-r", "z.z", "Q", "7"];
-        (*self.rng.pick(&pool)).to_string()
+        // words with 2-, 3- and 4-byte UTF-8 characters (a chunk boundary may fall inside them)
+        let wide = ["é", "€", "あ", "😀", "a€b", "éあ", "😀x", "naïve", "€€", "あ😀é"];
+        if self.rng.chance(1, 3) {
+            (*self.rng.pick(&wide)).to_string()
+        } else {
+            (*self.rng.pick(&pool)).to_string()
+        }
     }
     fn data_line(&mut self) -> String {
         let n = 1 + self.rng.below(3);
@@ -542,6 +548,7 @@ impl Gen {
         }
         match self.rng.below(10) {
             0 => s.push_str(" # trailing; comment"),
+            3 => s.push_str(" # é € あ 😀 fi"),
             1 => s.push(';'),
             2 => s.push(' '),
             _ => {}
@@ -732,7 +739,7 @@ impl Gen {
         }
     }
     fn blank_unit(&mut self) -> String {
-        (*self.rng.pick(&["", "# a comment line", "   ", "\t# fi"])).to_string()
+        (*self.rng.pick(&["", "# a comment line", "   ", "\t# fi", "# あ€ 😀é done"])).to_string()
     }
     fn terminal_unit(&mut self) -> String {
         let n = self.rng.below(4);
@@ -942,6 +949,47 @@ fn main() {
             // pad the cyclic list so that it is used at most once
             let feed = format!("pipe:{}:{}", i % 2, sz.join(","));
             emit_case(case_text(&feed, &data, &[b.to_vec()]));
+        }
+    }
+    // UTF-8: small scripts whose data lines (read by the `read` built-in), comments and quoted words
+    // (read by the shell's own reader) contain 2-, 3- and 4-byte characters.  Thorough: every
+    // chunking of the short ones; both tiers: a chunk boundary at every single byte position and at
+    // every pair of adjacent positions (a one-byte chunk anywhere), always with a pause so that the
+    // reader really sees the short chunk.
+    let utf_small: [&str; 5] = [
+        "read v\n€\n",
+        "read v\n😀\n",
+        ": 'あ'\n",
+        "read v\né\n#€\n",
+        ":;read v\nあ\n",
+    ];
+    for s in utf_small {
+        let b = s.as_bytes();
+        if o.thorough() {
+            for sizes in all_chunkings(b.len()) {
+                let sz: Vec<String> = sizes.iter().map(|n| n.to_string()).collect();
+                emit_case(case_text(&format!("pipe:1:{}", sz.join(",")), &data, &[b.to_vec()]));
+            }
+        }
+    }
+    let utf_scripts: [&[&str]; 4] = [
+        &["read -r v1\né€あ😀\nprobe R1 \"$v1\"\n", "probe m1 'あ😀' # é€\n"],
+        &["read v1 v2\n😀x あ é\n", "probe m1 \"$v1\" \"$v2\"\n", "# €\nprobe m2 \"é\n€\"\n"],
+        &["while read v1; do probe m1 $v1; done\n€\n😀😀\nあ\\\né\n"],
+        &["cat <<E1; read v2\nh あ€\nE1\n😀 é\n", "probe m1 \"$v2\"\n", "fi\n"],
+    ];
+    for units in utf_scripts {
+        let us: Vec<Vec<u8>> = units.iter().map(|u| u.as_bytes().to_vec()).collect();
+        let len: usize = us.iter().map(|u| u.len()).sum();
+        emit_case(case_text("file", &data, &us));
+        emit_case(case_text("pipe:1:1", &data, &us));
+        for i in 1..len {
+            // two chunks: boundary after byte i
+            emit_case(case_text(&format!("pipe:1:{i},{}", len - i), &data, &us));
+            // three chunks: a one-byte chunk at position i
+            if i + 1 < len {
+                emit_case(case_text(&format!("pipe:1:{i},1,{}", len - i - 1), &data, &us));
+            }
         }
     }
     let n = if o.thorough() { 40_000 } else { 1_500 };
